@@ -44,12 +44,36 @@ def leaf(env, e, inp, key, kind, varname, variables):
         if env.symbolic:
             inp[key] = CODES[e.choose(len(CODES))]
         return inp[key], inp[key]
+    if kind == 'errtext':
+        # a TEXT value that merely spells an error code is not an error
+        if env.symbolic:
+            inp[key] = CODES[e.choose(len(CODES))]
+        variables[varname] = str(inp[key])
+        return varname, None
+    if kind in ('custraise', 'custret', 'custnested'):
+        # a host-registered function that raises / returns the error object (also called from inside a built-in's argument)
+        if env.symbolic:
+            inp[key] = ERR8[e.choose(len(ERR8))]
+        err = env.error_by_code(inp[key])
+        fname = 'CUST' + varname.upper()
+
+        def cust(*a):
+            if kind == 'custret':
+                return err
+            raise err
+        variables.setdefault('__fn__', {})[fname] = cust
+        return ('SUM(1,%s())' % fname if kind == 'custnested' else '%s()' % fname), inp[key]
     text, code = SOURCES[kind]
     return text, code
 
 
 class _Base(Harness):
     prop = 'C08'
+
+    def parse_with(self, env, formula, variables=None, functions=None, debug=False):
+        variables = dict(variables or {})
+        fns = variables.pop('__fn__', None)
+        return Harness.parse_with(self, env, formula, variables, fns, debug)
     functions = ('operators.evaluate_arithmetic', 'operators.evaluate_logic', 'grammarparser.parser.p_expression_arithmetic_operator',
                  'grammarparser.parser.p_expression_logical_operator', 'grammarparser.parser.p_expression_uminus',
                  'grammarparser.parser.p_xlerror', 'Parser.parse', 'Parser.call_function', 'Parser._throw_error',
@@ -61,7 +85,8 @@ class Binary(_Base):
     name = 'C08.binary'
     doc = 'a OP b and -a with an error-producing leaf on either or both sides: the result is that error (the left one when both)'
     bounds = '11 binary operators and unary minus; each leaf: a non-error symbolic integer or an error produced as a bound value ' \
-             '(any of 8 codes), by an operator (1/0), by a function returning it, by a function raising it, or by an error literal (9 spellings)'
+             '(any of 8 codes), by an operator (1/0), by a function returning it, by a function raising it, by an error literal (9 spellings), or by a host-registered function that raises or returns it ' \
+             '(called directly or inside a built-in\'s argument)'
 
     def cases(self, tier):
         out = []
@@ -74,6 +99,14 @@ class Binary(_Base):
                     out.append({'op': op, 'l': l, 'r': r})
         for l in kinds:
             out.append({'op': 'neg', 'l': l, 'r': None})
+        for op in OPS:
+            for k in ('custraise', 'custret', 'custnested'):
+                for other in ('ok', 'var', k):
+                    out.append({'op': op, 'l': k, 'r': other})
+                    if other != k:
+                        out.append({'op': op, 'l': other, 'r': k})
+        for k in ('custraise', 'custret', 'custnested'):
+            out.append({'op': 'neg', 'l': k, 'r': None})
         # the non-error operand is an array: the error still is the result
         for op in OPS:
             for k in ('var', 'div0', 'raise'):
@@ -153,11 +186,16 @@ class Trapping(_Base):
     doc = 'IFERROR / IFNA / ISERROR / ISERR / ISNA / ERROR.TYPE observe every error produced by an operator or a (nested) function call'
     functions = _Base.functions + ('logic.IFERROR', 'logic.IFNA', 'information.ISERROR', 'information.ISERR', 'information.ISNA',
                                    'information.ERROR_TYPE')
-    bounds = 'argument: an error leaf of any kind, alone or as either operand of one of {+ * & < =} with a symbolic integer; or a non-error integer'
+    bounds = 'argument: an error leaf of any kind (including a host-registered function raising / returning the error), alone or as ' \
+             'either operand of one of {+ * & < =} with a symbolic integer; a non-error integer; a text value that spells an error code (alone, or under & or =)'
 
     def cases(self, tier):
         out = []
-        kinds = ['var9', 'div0', 'na', 'absx', 'raise', 'ok']
+        kinds = ['var9', 'div0', 'na', 'absx', 'raise', 'custraise', 'custret', 'custnested', 'ok']
+        for w in (None, '&', '='):
+            out.append({'kind': 'errtext', 'wrap': w, 'side': 'l'})
+            if w:
+                out.append({'kind': 'errtext', 'wrap': w, 'side': 'r'})
         for k in kinds:
             out.append({'kind': k, 'wrap': None})
             if k != 'ok':
@@ -192,6 +230,12 @@ class Trapping(_Base):
         code = inp['_code']
         iferror, ifna, iserror, iserr, isna, etype = out
         y = inp['y']
+        if code is None and p['kind'] == 'errtext' and not p['wrap']:
+            # text spelling an error code is text: nothing is trapped, the text itself comes back, ERROR.TYPE has no error to name
+            txt = inp['x']
+            return And(ok_result(iserror) and iserror['result'] is False, ok_result(iserr) and iserr['result'] is False,
+                       ok_result(isna) and isna['result'] is False, ok_result(iferror) and iferror['result'] == txt,
+                       ok_result(ifna) and ifna['result'] == txt, err_is(etype, '#N/A'))
         if code is None:
             # no error: IFERROR returns x itself (not y in general), predicates false
             return And(ok_result(iserror) and iserror['result'] is False, ok_result(iserr) and iserr['result'] is False,
